@@ -6,10 +6,12 @@
     [bitmap.Masks]      [j]          -> [Mask[j]; RMask[j]; MaskUpto[j]; RMaskUpto[j]; Bit[j]; RBit[j]] (P per entry)
     [bitmap.Getw/any]   [bm; i; w]   -> Getw(bm, i, w) on any bitmap and any int32 index (P = panic);
                                         judged by the specification only while i*w fits int32
-    [bitmap.Join/split] [bm; w]      -> Join([Getw(bm, i, w) for i < 64*len(bm)/w], w); must be bm again *)
+    [bitmap.Join/split] [bm; w]      -> Join([Getw(bm, i, w) for i < 64*len(bm)/w], w); must be bm again
+    [bitmap.Slice/ToArray] [ws; from; to] -> ToArray(Slice(ws, from, to)) *)
 From Coq Require Import ZArith List Bool String.
 From Low Require Import Lib.Bits Lib.BitSeq Lib.Val Model.BitmapJoin Spec.JoinSpec
-  Model.BitmapMask Spec.MaskSpec Model.BitmapGetw32 Spec.GetwSpec.
+  Model.BitmapMask Spec.MaskSpec Model.BitmapGetw32 Spec.GetwSpec
+  Model.BitmapSliceArray Spec.SliceArraySpec.
 Import ListNotations.
 Open Scope string_scope.
 Open Scope Z_scope.
@@ -96,5 +98,17 @@ Definition ops_C14 : list opdef := [
        | _ => VBad end;
      op_spec := fun_spec (fun a => match a with
        | [bm; w] => bm
+       | _ => VBad end) |};
+  {| op_name := "bitmap.Slice/ToArray";
+     op_run := fun a => match a with
+       | [ws; from; to] => match as_zs ws, as_z from, as_z to with
+           | Some ws, Some from, Some to =>
+               if words_okb ws && slice_dom ws from to then vopt_zs (SliceToArray ws from to) else VBad
+           | _, _, _ => VBad end
+       | _ => VBad end;
+     op_spec := fun_spec (fun a => match a with
+       | [ws; from; to] => match as_zs ws, as_z from, as_z to with
+           | Some ws, Some from, Some to => vzs (spec_SliceArray ws from to)
+           | _, _, _ => VBad end
        | _ => VBad end) |}
 ].
